@@ -281,6 +281,7 @@ def strat_ts(draw):
             "ratio": draw(st.one_of(st.integers(2, 60).map(float), st.floats(2.0, 60.0, allow_nan=False))),
             "accel": draw(st.one_of(st.just(0.0), st.floats(1.0, 1e5), st.floats(-1e5, -1.0))),
             "amp_exp": draw(st.sampled_from([0, 0, -20, 20, -40])),
+            "tsamp": draw(st.sampled_from([2.0**-10, 2.0**-10, 64e-6, 1e-3, 0.000327, 81.92e-6])),
             # further trial periods folded on the SAME TimeSeries object with the same cube shape (a period search)
             "more_ratios": draw(st.lists(st.one_of(st.integers(2, 60).map(float), st.floats(2.0, 60.0, allow_nan=False)), min_size=0, max_size=2))}
 
@@ -292,7 +293,8 @@ def check_ts(case, ctx):
     N = case["N"]
     x = np.random.default_rng(case["seed"]).integers(-500, 500, size=N).astype(np.float32)
     x = (x * np.float32(2.0 ** case.get("amp_exp", 0))).astype(np.float32)  # the unit of the data is arbitrary (exact scaling)
-    hdr = Header(filename="t.tim", data_type="time series", nchans=1, foff=-1.0, fch1=1400.0, nbits=32, tsamp=TSAMP,
+    TS = case.get("tsamp", TSAMP)
+    hdr = Header(filename="t.tim", data_type="time series", nchans=1, foff=-1.0, fch1=1400.0, nbits=32, tsamp=TS,
                  tstart=55000.0, nsamples=N, dm=12.5)
     ts = TimeSeries(x, hdr)
     ratios = [case["ratio"]] + list(case.get("more_ratios", []))
@@ -300,14 +302,14 @@ def check_ts(case, ctx):
     anyamb = False
     occupied = 0
     for k, ratio in enumerate(ratios):
-        period = ratio * TSAMP
+        period = ratio * TS
         with warnings.catch_warnings():
             warnings.simplefilter("ignore")
             try:
                 cube = ts.fold(period, accel=case["accel"], nbins=case["nbins"], nints=case["nints"])
             except Exception as exc:  # noqa: BLE001
                 raise Violation(f"ts.fold:raised:{type(exc).__name__}", f"{case} fold #{k + 1}: {exc!r}") from exc
-        sums, cnts, amb = fold_oracle(x.reshape(N, 1), np.zeros(1, np.int64), TSAMP, period, case["accel"], case["nbins"], case["nints"], 1)
+        sums, cnts, amb = fold_oracle(x.reshape(N, 1), np.zeros(1, np.int64), TS, period, case["accel"], case["nbins"], case["nints"], 1)
         require(cube.data.shape == (case["nints"], 1, case["nbins"]), "ts.fold:shape", f"{cube.data.shape}")
         if amb:
             anyamb = True
